@@ -59,3 +59,15 @@ func (o *vout) emit(v interface{}) {
 func (o *vout) close() { o.w.Flush(); o.f.Close() }
 
 func TestVerifNothing(t *testing.T) {}
+
+func (r *vrng) perm(n int) []int {
+	p := make([]int, n)
+	for i := range p {
+		p[i] = i
+	}
+	for i := n - 1; i > 0; i-- {
+		j := r.below(i + 1)
+		p[i], p[j] = p[j], p[i]
+	}
+	return p
+}
